@@ -216,8 +216,7 @@ theorem exact_raw (env : Env) (orc : Nat → Val → Raw) (hw : WfEnv env) :
     simp only [Ann.okC, Bool.and_eq_true] at hok
     have hreq : requiredArgsOk (unionName sp) ms.length = true := by
       rw [cfg_req_union]; cases sp <;> simp_all
-    simp only [isInstance, unionNode, hreq, conforms, ih hok.1 hwf hp, Bool.not_true, Bool.false_eq_true, ↓reduceIte]
-    cases sp <;> simp [cfg_special_union, cfg_special_optional]
+    simp only [isInstance, unionNode, hreq, conforms, ih hok.1 hwf hp, cfg_unionDispatch, Bool.not_true, Bool.false_eq_true, ↓reduceIte]
   case case6 =>
     intro _ ls v _ _ _
     simp only [isInstance, literalNode, cfg_special_literal, conforms, Bool.not_true, Bool.false_eq_true, ↓reduceIte]
@@ -294,5 +293,40 @@ theorem exact_raw (env : Env) (orc : Nat → Val → Raw) (hw : WfEnv env) :
     simp only [Ann.okC.okCL, Bool.and_eq_true] at hok
     simp only [anyRaw, conformsAny, ih1 hok.1 hwf hp, ih3 hok.2 hwf hp, anyStep_ok]
   all_goals (intros; trivial)
+
+theorem bareNode_cases (env : Env) (o : BareOrigin) (v : Val) :
+    bareNode env o v = .ok false ∨ bareNode env o v = .raisedPed ∨ bareNode env o v = .raisedOther := by
+  have hne := bareNode_ne_true env o v
+  unfold bareNode at hne ⊢
+  by_cases hb : o.isBuiltin = true
+  · simp only [cfg_req_bare_builtin o hb, hb, cfg_bare o hb, Bool.not_true, Bool.false_eq_true, ↓reduceIte]
+    split <;> simp
+  · have hb' : o.isBuiltin = false := by simpa using hb
+    by_cases ht : o = .tType
+    · subst ht
+      simp only [cfg_req_tType, BareOrigin.isBuiltin, Bool.not_true, Bool.false_eq_true, ↓reduceIte]
+      split <;> simp
+    · simp [cfg_req_bare o hb' ht]
+
+
+/-- completeness of `_check_type` on the guarded vocabulary (restated in Props/C02.lean) -/
+theorem complete_checkType (env : Env) (orc : Nat → Val → Raw) (hw : WfEnv env) (a : Ann) (v : Val)
+    (hok : a.okC env = true ∨ a = .none) (hwf : v.wf env = true) (hp : v.plain = true) :
+    conforms env a v = true → checkType env orc a v = .accept := by
+  intro h
+  rcases hok with hok | rfl
+  · have := (exact_raw env orc hw).1 false a v hok hwf hp
+    cases a <;> simp_all [checkType, wrap, Ann.okC]
+  · simpa [checkType, conforms] using h
+
+/-- the verdict is a verdict: on the guarded vocabulary the checker answers accept or reject, exactly as the spec says -/
+theorem exact_checkType (env : Env) (orc : Nat → Val → Raw) (hw : WfEnv env) (a : Ann) (v : Val)
+    (hok : a.okC env = true ∨ a = .none) (hwf : v.wf env = true) (hp : v.plain = true) :
+    checkType env orc a v = if conforms env a v then .accept else .reject := by
+  rcases hok with hok | rfl
+  · have := (exact_raw env orc hw).1 false a v hok hwf hp
+    cases a <;> simp_all [checkType, Ann.okC, wrap_ok]
+  · cases h : v.isNone <;> simp [checkType, conforms, h]
+
 
 end PedVerif.Checker
